@@ -144,7 +144,7 @@ static void dump_func (MIR_context_t ctx, int fid) {
       if (ic == IC_MOVP && k == 2) slot_addr (fd->code[idx], "movp");
       else if (ic == IC_MOVLD && k == 2) pr_ld (fd->code[idx].ld);
       else if (ic == MIR_CALL || ic == MIR_JCALL || ic == IC_IMM_CALL || ic == IC_IMM_JCALL) {
-        if (k == 2) fprintf (out, "{.a = 0} /* insn */");
+        if (k == 2) fprintf (out, "{.a = &%sdummy_insn} /* insn */", P); /* call_insn_execute only forms &insn->ops[k] (used when no ffi is set) */
         else if (k == 3) {
           MIR_item_t pi = fd->code[start + 4].a;
           fprintf (out, "{.a = (void *) %sff_proto%d}", P, proto_id (pi));
@@ -199,6 +199,7 @@ int main (int argc, char **argv) {
   }
   fprintf (out, "/* generated by mirdump from %s: real MIR_link + generate_icode output */\n", file);
   fprintf (out, "#define %sNFUNC %d\n#define %sNEXT %d\n#define %sNSEC %d\n#define %sNPROTO_MAX 256\n", P, nfns, P, nexts > 0 ? nexts : 1, P, nsecs, P);
+  fprintf (out, "static struct MIR_insn %sdummy_insn;\n", P);
   fprintf (out, "static char %sfn_marker[%d];\nstatic char %sext_marker[%d];\n", P, nfns > 0 ? nfns : 1, P, nexts > 0 ? nexts : 1);
   fprintf (out, "static const char *const %sext_name[] = {", P);
   for (int i = 0; i < nexts; i++) fprintf (out, "\"%s\", ", exts[i].name);
